@@ -1,6 +1,7 @@
 import Zrnt.Beacon.Block
 import Zrnt.Util.Merkle
 import Zrnt.Beacon.Spec.Transition
+import Zrnt.Beacon.Spec.BlockPure
 /-!
 # Specification layer `S`: block processing — helpers and the operations (phase0 … deneb)
 
@@ -523,8 +524,7 @@ def get_expected_withdrawals (cfg : Config) (s : State) : SM (List Withdrawal) :
   withdrawals_sweep cfg s epoch bound s.next_withdrawal_index s.next_withdrawal_validator_index []
 
 /-- `process_withdrawals` [New in Capella] -/
-def process_withdrawals (cfg : Config) (s : State) (payload : ExecutionPayload) : SM State := do
-  let expected_withdrawals ← get_expected_withdrawals cfg s
+def process_withdrawals_m (cfg : Config) (s : State) (payload : ExecutionPayload) (expected_withdrawals : List Withdrawal) : SM State := do
   require (payload.withdrawals.length = expected_withdrawals.length) "withdrawals.count"
   require (payload.withdrawals = expected_withdrawals) "withdrawals.mismatch"
   let mut s := s
@@ -543,6 +543,13 @@ def process_withdrawals (cfg : Config) (s : State) (payload : ExecutionPayload) 
     -- Advance sweep by the max length of the sweep if there was not a full set of withdrawals
     let next_index ← u64 (s.next_withdrawal_validator_index + cfg.MAX_VALIDATORS_PER_WITHDRAWALS_SWEEP) "next_withdrawal_validator_index"
     pure { s with next_withdrawal_validator_index := next_index % s.validators.length }
+
+/-- `process_withdrawals` [New in Capella]: the monadic version above, compared with its pure core
+`process_withdrawals_pure` (which the refinement theorem `withdrawalsApply_eq` is about) on every evaluation -/
+def process_withdrawals (cfg : Config) (s : State) (payload : ExecutionPayload) : SM State := do
+  let expected_withdrawals ← get_expected_withdrawals cfg s
+  crossCheck "process_withdrawals" (process_withdrawals_pure cfg s expected_withdrawals payload.withdrawals)
+    (process_withdrawals_m cfg s payload expected_withdrawals)
 
 /-- `process_execution_payload` [New in Bellatrix] [Modified in Capella: parent hash check
 unconditional, withdrawals_root] [Modified in Deneb: commitments limit, blob gas fields]. The execution
